@@ -1,5 +1,5 @@
 SPECIFICATION Spec
-CONSTANTS MaxRows = 5 NPair = 4 WithUnmapped = TRUE
+CONSTANTS MaxRows = 5 NPair = 4 WithUnmapped = FALSE
   Kinds = {"single", "swap"}
   AsIs_AllSharedKeyError = FALSE AsIs_PairByFirstName = FALSE Mut_NoStrip = FALSE Mut_SharedContribute = FALSE Mut_NoCollapse = FALSE Mut_KeepWorst = FALSE
 INVARIANT OnePerPair
